@@ -37,6 +37,8 @@ OWN = {
  "haystack_filter_destroy": ["C18"],
  "last_error_message no longer aborts": ["C18", "C17"],
  "is_false is true only": ["C19"],
+ "date/time getters report an error": ["C18", "C17"],
+ "encoders return an error for a timestamp": ["C10", "C18"],
 }
 def sh(cmd, **kw):
     return subprocess.run(cmd, shell=True, stdout=subprocess.PIPE, stderr=subprocess.STDOUT, text=True, **kw)
